@@ -103,6 +103,12 @@ class Replayer:
                 s.rollback()
             elif c == 'lib_query':
                 s.query(Genome).count()
+            elif c == 'lib_tree_walk':
+                gset = self.dbobj.genomeset
+                for root in gset.root_taxa():
+                    for t in root.traverse():
+                        t.genomes.count()
+                    list(root.leaves()); list(root.descendants(postorder=True)); list(root.subtree_genomes())[:3]
             elif c == 'lib_read_sigs':
                 sig = self.dbobj.signatures
                 _ = sig[0], sig[len(sig) - 1], sig[0:2], sig.ids[0], sig.meta
@@ -187,7 +193,8 @@ def run(ctx):
     res = tlc.run_tlc('DbWorld', 'Gen_DbWorld.cfg', workers=1, timeout=1500, extra=['-simulate', f'num={num}', '-depth', '9', '-seed', str(ctx.seed % 100000)])
     hists = list({core.canon(h): h for h in res.printed if isinstance(h, list) and h and isinstance(h[0], dict) and 'cmd' in h[0]}.values())
     # plus hand-picked library-heavy histories every run must include (still judged against the generated expectations' rules)
-    must = [['lib_other_rw_reader', 'lib_load', 'lib_edit', 'lib_flush', 'lib_commit', 'lib_query', 'lib_close'],
+    must = [['lib_load', 'lib_tree_walk', 'lib_close', 'lib_load', 'lib_tree_walk', 'lib_rollback', 'lib_query', 'lib_close'],
+            ['lib_other_rw_reader', 'lib_load', 'lib_edit', 'lib_flush', 'lib_commit', 'lib_query', 'lib_close'],
             ['lib_other_ro_reader', 'lib_other_rw_reader', 'lib_load', 'lib_delete', 'lib_flush', 'lib_begin_block', 'lib_close', 'lib_load', 'lib_add', 'lib_commit'],
             ['lib_load', 'lib_delete', 'lib_flush', 'lib_begin_block', 'lib_query', 'lib_close'],
             ['lib_load', 'lib_edit', 'lib_flush', 'lib_commit', 'lib_query', 'lib_rollback', 'lib_read_sigs', 'lib_close'],
